@@ -49,5 +49,10 @@ Lemma retry_stops cfg s g mid qos st d snpub n :
 Proof.
   intros Hobj Hn. cbn [fire]. rewrite Hobj.
   assert (E : (retry_count cfg <? n + 1) = true) by (apply N.ltb_lt; exact Hn). rewrite E.
-  split; [reflexivity|]. unfold finish_obj. rewrite Hobj. cbn. apply lookup_delete.
+  split; [reflexivity|]. unfold finish_obj. rewrite Hobj.
+  match goal with |- context [match ?X !! mid with Some _ => _ | None => _ end] =>
+    destruct (X !! mid) as [g'|]; [destruct (g' =? g)|] end; cbn; apply lookup_delete.
 Qed.
+
+Print Assumptions retry_resends.
+Print Assumptions retry_stops.
